@@ -387,3 +387,486 @@ Proof.
   intros H. unfold parse_value, parse_value_d. apply parse_value_benc; [exact H|].
   rewrite app_length. lia.
 Qed.
+
+(* ================================================================================================
+   Fuel: one-step unfoldings, monotonicity, and "the consumed length is enough fuel"
+   ================================================================================================ *)
+Lemma pv_S f dirty b :
+  parse_value_fuel (S f) dirty b =
+  match b with
+  | [] => None
+  | c :: r =>
+      if byte_eqb c ch_i then
+        if dirty then None
+        else match read_until ch_e r with
+             | None => None
+             | Some (txt, r') => match int_text_any txt with Some z => Some (BInt z, r') | None => None end
+             end
+      else if byte_eqb c ch_l then
+        match parse_list_fuel f dirty r with Some (l, r') => Some (BList l, r') | None => None end
+      else if byte_eqb c ch_d then
+        match parse_dict_fuel f dirty None r with Some (d, r') => Some (BDict d, r') | None => None end
+      else if is_digit c then
+        if dirty then None
+        else match parse_str_tok b with Some (s, r') => Some (BStr s, r') | None => None end
+      else None
+  end.
+Proof. reflexivity. Qed.
+
+Lemma pl_S f dirty b :
+  parse_list_fuel (S f) dirty b =
+  match b with
+  | [] => None
+  | c :: r =>
+      if byte_eqb c ch_e then Some ([], r)
+      else match parse_value_fuel f dirty b with
+           | None => None
+           | Some (v, b1) =>
+               match parse_list_fuel f dirty b1 with Some (l, b2) => Some (v :: l, b2) | None => None end
+           end
+  end.
+Proof. reflexivity. Qed.
+
+Lemma pd_S f dirty last b :
+  parse_dict_fuel (S f) dirty last b =
+  match b with
+  | [] => None
+  | c :: r =>
+      if byte_eqb c ch_e then Some ([], r)
+      else if is_digit c then
+        if dirty then None
+        else match parse_str_tok b with
+             | None => None
+             | Some (k, b1) =>
+                 if key_after last k then
+                   match parse_value_fuel f dirty b1 with
+                   | None => None
+                   | Some (v, b2) =>
+                       match parse_dict_fuel f dirty (Some k) b2 with
+                       | Some (d, b3) => Some ((k, v) :: d, b3)
+                       | None => None
+                       end
+                   end
+                 else None
+             end
+      else None
+  end.
+Proof. reflexivity. Qed.
+
+Lemma parse_str_tok_spec b s r :
+  parse_str_tok b = Some (s, r) -> exists pre, b = pre ++ r /\ pre <> [] /\ str_ok s = true.
+Proof.
+  unfold parse_str_tok. destruct (read_until ch_colon b) as [[txt r0]|] eqn:R; [|discriminate].
+  destruct (check_buffered_int txt); [|discriminate].
+  destruct (parse_udec txt) as [n|]; [|discriminate].
+  destruct (N.leb_spec n max_str_len) as [Hn|]; [|discriminate].
+  intros T. apply read_until_spec in R. destruct R as (-> & _).
+  apply take_str_spec in T. destruct T as (-> & L).
+  exists (txt ++ ch_colon :: s). split; [rewrite <- app_assoc; reflexivity|].
+  split; [destruct txt; discriminate|]. unfold str_ok. apply N.leb_le. lia.
+Qed.
+
+Lemma parse_str_tok_ext b s r rest :
+  parse_str_tok b = Some (s, r) -> parse_str_tok (b ++ rest) = Some (s, r ++ rest).
+Proof.
+  unfold parse_str_tok. destruct (read_until ch_colon b) as [[txt r0]|] eqn:R; [|discriminate].
+  rewrite (read_until_ext _ _ _ _ rest R).
+  destruct (check_buffered_int txt); [|discriminate].
+  destruct (parse_udec txt) as [n|]; [|discriminate].
+  destruct (N.leb n max_str_len); [|discriminate].
+  apply take_str_ext.
+Qed.
+
+(* more fuel never changes a result *)
+Lemma parse_mono f :
+  (forall d b x, parse_value_fuel f d b = Some x -> parse_value_fuel (S f) d b = Some x) /\
+  (forall d b x, parse_list_fuel f d b = Some x -> parse_list_fuel (S f) d b = Some x) /\
+  (forall d last b x, parse_dict_fuel f d last b = Some x -> parse_dict_fuel (S f) d last b = Some x).
+Proof.
+  induction f as [|f (IHv & IHl & IHd)].
+  - repeat split; intros; discriminate.
+  - split; [|split].
+    + intros d b x. rewrite (pv_S (S f)), (pv_S f). destruct b as [|c r]; [discriminate|].
+      destruct (byte_eqb c ch_i); [auto|].
+      destruct (byte_eqb c ch_l).
+      { destruct (parse_list_fuel f d r) as [[l r']|] eqn:E; [|discriminate].
+        rewrite (IHl _ _ _ E). auto. }
+      destruct (byte_eqb c ch_d).
+      { destruct (parse_dict_fuel f d None r) as [[l r']|] eqn:E; [|discriminate].
+        rewrite (IHd _ _ _ _ E). auto. }
+      auto.
+    + intros d b x. rewrite (pl_S (S f)), (pl_S f). destruct b as [|c r]; [discriminate|].
+      destruct (byte_eqb c ch_e); [auto|].
+      destruct (parse_value_fuel f d (c :: r)) as [[v b1]|] eqn:E; [|discriminate].
+      rewrite (IHv _ _ _ E).
+      destruct (parse_list_fuel f d b1) as [[l b2]|] eqn:E2; [|discriminate].
+      rewrite (IHl _ _ _ E2). auto.
+    + intros d last b x. rewrite (pd_S (S f)), (pd_S f). destruct b as [|c r]; [discriminate|].
+      destruct (byte_eqb c ch_e); [auto|].
+      destruct (is_digit c); [|auto]. destruct d; [auto|].
+      destruct (parse_str_tok (c :: r)) as [[k b1]|]; [|auto].
+      destruct (key_after last k); [|auto].
+      destruct (parse_value_fuel f false b1) as [[v b2]|] eqn:E; [|discriminate].
+      rewrite (IHv _ _ _ E).
+      destruct (parse_dict_fuel f false (Some k) b2) as [[dd b3]|] eqn:E2; [|discriminate].
+      rewrite (IHd _ _ _ _ E2). auto.
+Qed.
+
+Lemma parse_value_mono_le f f' d b x :
+  (f <= f')%nat -> parse_value_fuel f d b = Some x -> parse_value_fuel f' d b = Some x.
+Proof. intros Hle; induction Hle; [auto|]. intros H0. apply parse_mono. auto. Qed.
+Lemma parse_list_mono_le f f' d b x :
+  (f <= f')%nat -> parse_list_fuel f d b = Some x -> parse_list_fuel f' d b = Some x.
+Proof. intros Hle; induction Hle; [auto|]. intros H0. apply parse_mono. auto. Qed.
+Lemma parse_dict_mono_le f f' d last b x :
+  (f <= f')%nat -> parse_dict_fuel f d last b = Some x -> parse_dict_fuel f' d last b = Some x.
+Proof. intros Hle; induction Hle; [auto|]. intros H0. apply parse_mono. auto. Qed.
+
+(* a successful parse consumed a prefix, and that prefix's length is enough fuel *)
+Lemma parse_consumed f :
+  (forall d b v r, parse_value_fuel f d b = Some (v, r) ->
+     exists pre, b = pre ++ r /\ parse_value_fuel (length pre) d b = Some (v, r)) /\
+  (forall d b l r, parse_list_fuel f d b = Some (l, r) ->
+     exists pre, b = pre ++ r /\ parse_list_fuel (length pre) d b = Some (l, r)) /\
+  (forall d last b l r, parse_dict_fuel f d last b = Some (l, r) ->
+     exists pre, b = pre ++ r /\ parse_dict_fuel (length pre) d last b = Some (l, r)).
+Proof.
+  induction f as [|f (IHv & IHl & IHd)].
+  - repeat split; intros; discriminate.
+  - split; [|split].
+    + intros d b v r. rewrite pv_S. destruct b as [|c r0]; [discriminate|].
+      destruct (byte_eqb c ch_i) eqn:Ei.
+      { destruct d; [discriminate|].
+        destruct (read_until ch_e r0) as [[txt r']|] eqn:R; [|discriminate].
+        destruct (int_text_any txt) as [z|] eqn:T; [|discriminate]. intros [= <- <-].
+        pose proof (read_until_spec _ _ _ _ R) as (-> & _).
+        exists (c :: txt ++ [ch_e]). split; [simpl; rewrite <- app_assoc; reflexivity|].
+        cbn [length]. rewrite pv_S, Ei, R, T. reflexivity. }
+      destruct (byte_eqb c ch_l) eqn:El.
+      { destruct (parse_list_fuel f d r0) as [[l r']|] eqn:E; [|discriminate]. intros [= <- <-].
+        destruct (IHl _ _ _ _ E) as (pre & -> & P).
+        exists (c :: pre). split; [reflexivity|]. cbn [length]. rewrite pv_S, Ei, El, P. reflexivity. }
+      destruct (byte_eqb c ch_d) eqn:Ed.
+      { destruct (parse_dict_fuel f d None r0) as [[l r']|] eqn:E; [|discriminate]. intros [= <- <-].
+        destruct (IHd _ _ _ _ _ E) as (pre & -> & P).
+        exists (c :: pre). split; [reflexivity|]. cbn [length]. rewrite pv_S, Ei, El, Ed, P. reflexivity. }
+      destruct (is_digit c) eqn:Edg; [|discriminate]. destruct d; [discriminate|].
+      destruct (parse_str_tok (c :: r0)) as [[s r']|] eqn:T; [|discriminate]. intros [= <- <-].
+      destruct (parse_str_tok_spec _ _ _ T) as (pre & E & Hne & _).
+      exists pre. split; [exact E|].
+      destruct pre as [|p pre']; [congruence|]. cbn [length].
+      rewrite pv_S, Ei, El, Ed, Edg, T. reflexivity.
+    + intros d b l r. rewrite pl_S. destruct b as [|c r0]; [discriminate|].
+      destruct (byte_eqb c ch_e) eqn:Ee.
+      { intros [= <- <-]. exists [c]. split; [reflexivity|]. cbn [length]. rewrite pl_S, Ee. reflexivity. }
+      destruct (parse_value_fuel f d (c :: r0)) as [[v b1]|] eqn:E; [|discriminate].
+      destruct (parse_list_fuel f d b1) as [[l' b2]|] eqn:E2; [|discriminate]. intros [= <- <-].
+      destruct (IHv _ _ _ _ E) as (p1 & E1 & P1). destruct (IHl _ _ _ _ E2) as (p2 & -> & P2).
+      exists (p1 ++ p2). split; [rewrite <- app_assoc; exact E1|].
+      destruct p1 as [|x1 p1']; [simpl in P1; discriminate|].
+      destruct p2 as [|x2 p2']; [simpl in P2; discriminate|].
+      rewrite app_length. cbn [length]. rewrite Nat.add_succ_r.
+      change (S (S (length p1') + length p2')) with (S (S (length p1' + length p2'))).
+      rewrite pl_S, Ee.
+      erewrite (parse_value_mono_le _ (S (length p1' + length p2'))); [| | exact P1]; [| cbn [length]; lia].
+      cbv beta iota.
+      erewrite (parse_list_mono_le _ (S (length p1' + length p2'))); [| | exact P2]; [| cbn [length]; lia].
+      reflexivity.
+    + intros d last b l r. rewrite pd_S. destruct b as [|c r0]; [discriminate|].
+      destruct (byte_eqb c ch_e) eqn:Ee.
+      { intros [= <- <-]. exists [c]. split; [reflexivity|]. cbn [length]. rewrite pd_S, Ee. reflexivity. }
+      destruct (is_digit c) eqn:Edg; [|discriminate]. destruct d; [discriminate|].
+      destruct (parse_str_tok (c :: r0)) as [[k b1]|] eqn:T; [|discriminate].
+      destruct (key_after last k) eqn:K; [|discriminate].
+      destruct (parse_value_fuel f false b1) as [[v b2]|] eqn:E; [|discriminate].
+      destruct (parse_dict_fuel f false (Some k) b2) as [[dd b3]|] eqn:E2; [|discriminate]. intros [= <- <-].
+      destruct (parse_str_tok_spec _ _ _ T) as (p0 & E0 & Hne & _).
+      destruct (IHv _ _ _ _ E) as (p1 & -> & P1). destruct (IHd _ _ _ _ _ E2) as (p2 & -> & P2).
+      exists (p0 ++ p1 ++ p2). split; [rewrite <- !app_assoc; exact E0|].
+      destruct p0 as [|x0 p0']; [congruence|].
+      destruct p1 as [|x1 p1']; [simpl in P1; discriminate|].
+      destruct p2 as [|x2 p2']; [simpl in P2; discriminate|].
+      rewrite !app_length. cbn [length].
+      replace (S (length p0') + (S (length p1') + S (length p2')))%nat
+        with (S (S (S (length p0' + length p1' + length p2')))) by lia.
+      rewrite pd_S, Ee, Edg, T, K.
+      erewrite (parse_value_mono_le _ (S (S (length p0' + length p1' + length p2')))); [| | exact P1]; [| cbn [length]; lia].
+      cbv beta iota.
+      erewrite (parse_dict_mono_le _ (S (S (length p0' + length p1' + length p2')))); [| | exact P2]; [| cbn [length]; lia].
+      reflexivity.
+Qed.
+
+(* fuel = length of the input suffices: any larger fuel gives the same result *)
+Theorem parse_value_fuel_enough f d b :
+  (length b <= f)%nat -> parse_value_fuel f d b = parse_value_fuel (length b) d b.
+Proof.
+  intros Hf. destruct (parse_value_fuel f d b) as [[v r]|] eqn:E.
+  - destruct (proj1 (parse_consumed f) _ _ _ _ E) as (pre & Eb & P).
+    symmetry. eapply parse_value_mono_le; [|exact P]. rewrite Eb, app_length. lia.
+  - destruct (parse_value_fuel (length b) d b) as [x|] eqn:E2; [|reflexivity].
+    rewrite (parse_value_mono_le _ f _ _ _ Hf E2) in E. discriminate.
+Qed.
+
+Theorem parse_value_d_spec d b v r :
+  parse_value_d d b = Some (v, r) -> exists pre, b = pre ++ r /\ pre <> [].
+Proof.
+  unfold parse_value_d. intros H.
+  destruct (proj1 (parse_consumed _) _ _ _ _ H) as (pre & E & P).
+  exists pre. split; [exact E|]. destruct pre; [simpl in P; discriminate | discriminate].
+Qed.
+
+(* appending bytes after a parsed value does not disturb it *)
+Lemma parse_ext f :
+  (forall d b v r rest, parse_value_fuel f d b = Some (v, r) -> parse_value_fuel f d (b ++ rest) = Some (v, r ++ rest)) /\
+  (forall d b l r rest, parse_list_fuel f d b = Some (l, r) -> parse_list_fuel f d (b ++ rest) = Some (l, r ++ rest)) /\
+  (forall d last b l r rest, parse_dict_fuel f d last b = Some (l, r) -> parse_dict_fuel f d last (b ++ rest) = Some (l, r ++ rest)).
+Proof.
+  induction f as [|f (IHv & IHl & IHd)].
+  - repeat split; intros; discriminate.
+  - split; [|split].
+    + intros d b v r rest. rewrite !pv_S. destruct b as [|c r0]; [discriminate|]. cbn [app].
+      destruct (byte_eqb c ch_i).
+      { destruct d; [discriminate|].
+        destruct (read_until ch_e r0) as [[txt r']|] eqn:R; [|discriminate].
+        rewrite (read_until_ext _ _ _ _ rest R).
+        destruct (int_text_any txt); [|discriminate]. intros [= <- <-]. reflexivity. }
+      destruct (byte_eqb c ch_l).
+      { destruct (parse_list_fuel f d r0) as [[l r']|] eqn:E; [|discriminate]. intros [= <- <-].
+        rewrite (IHl _ _ _ _ rest E). reflexivity. }
+      destruct (byte_eqb c ch_d).
+      { destruct (parse_dict_fuel f d None r0) as [[l r']|] eqn:E; [|discriminate]. intros [= <- <-].
+        rewrite (IHd _ _ _ _ _ rest E). reflexivity. }
+      destruct (is_digit c); [|discriminate]. destruct d; [discriminate|].
+      destruct (parse_str_tok (c :: r0)) as [[s r']|] eqn:T; [|discriminate]. intros [= <- <-].
+      change (c :: r0 ++ rest) with ((c :: r0) ++ rest).
+      rewrite (parse_str_tok_ext _ _ _ rest T). reflexivity.
+    + intros d b l r rest. rewrite !pl_S. destruct b as [|c r0]; [discriminate|]. cbn [app].
+      destruct (byte_eqb c ch_e); [intros [= <- <-]; reflexivity|].
+      destruct (parse_value_fuel f d (c :: r0)) as [[v b1]|] eqn:E; [|discriminate].
+      destruct (parse_list_fuel f d b1) as [[l' b2]|] eqn:E2; [|discriminate]. intros [= <- <-].
+      change (c :: r0 ++ rest) with ((c :: r0) ++ rest).
+      rewrite (IHv _ _ _ _ rest E), (IHl _ _ _ _ rest E2). reflexivity.
+    + intros d last b l r rest. rewrite !pd_S. destruct b as [|c r0]; [discriminate|]. cbn [app].
+      destruct (byte_eqb c ch_e); [intros [= <- <-]; reflexivity|].
+      destruct (is_digit c); [|discriminate]. destruct d; [discriminate|].
+      destruct (parse_str_tok (c :: r0)) as [[k b1]|] eqn:T; [|discriminate].
+      change (c :: r0 ++ rest) with ((c :: r0) ++ rest).
+      rewrite (parse_str_tok_ext _ _ _ rest T).
+      destruct (key_after last k); [|discriminate].
+      destruct (parse_value_fuel f false b1) as [[v b2]|] eqn:E; [|discriminate].
+      destruct (parse_dict_fuel f false (Some k) b2) as [[dd b3]|] eqn:E2; [|discriminate]. intros [= <- <-].
+      rewrite (IHv _ _ _ _ rest E), (IHd _ _ _ _ _ rest E2). reflexivity.
+Qed.
+
+(* ================================================================================================
+   What the strict parser returns is canonical, and its canonical encoding is what it consumed
+   ================================================================================================ *)
+Lemma parse_canon f :
+  (forall b v r, parse_value_fuel f false b = Some (v, r) -> canonb v = true) /\
+  (forall b l r, parse_list_fuel f false b = Some (l, r) -> forallb canonb l = true) /\
+  (forall last b l r, parse_dict_fuel f false last b = Some (l, r) ->
+     keys_asc last (map fst l) = true /\ forallb (fun kv => str_ok (fst kv) && canonb (snd kv)) l = true).
+Proof.
+  induction f as [|f (IHv & IHl & IHd)].
+  - repeat split; intros; discriminate.
+  - split; [|split].
+    + intros b v r. rewrite pv_S. destruct b as [|c r0]; [discriminate|].
+      destruct (byte_eqb c ch_i).
+      { destruct (read_until ch_e r0) as [[txt r']|]; [|discriminate].
+        destruct (int_text_any txt); [|discriminate]. intros [= <- <-]. reflexivity. }
+      destruct (byte_eqb c ch_l).
+      { destruct (parse_list_fuel f false r0) as [[l r']|] eqn:E; [|discriminate]. intros [= <- <-].
+        exact (IHl _ _ _ E). }
+      destruct (byte_eqb c ch_d).
+      { destruct (parse_dict_fuel f false None r0) as [[l r']|] eqn:E; [|discriminate]. intros [= <- <-].
+        destruct (IHd _ _ _ _ E) as (K & V). cbn [canonb]. rewrite K, V. reflexivity. }
+      destruct (is_digit c); [|discriminate].
+      destruct (parse_str_tok (c :: r0)) as [[s r']|] eqn:T; [|discriminate]. intros [= <- <-].
+      destruct (parse_str_tok_spec _ _ _ T) as (_ & _ & _ & Hs). exact Hs.
+    + intros b l r. rewrite pl_S. destruct b as [|c r0]; [discriminate|].
+      destruct (byte_eqb c ch_e); [intros [= <- <-]; reflexivity|].
+      destruct (parse_value_fuel f false (c :: r0)) as [[v b1]|] eqn:E; [|discriminate].
+      destruct (parse_list_fuel f false b1) as [[l' b2]|] eqn:E2; [|discriminate]. intros [= <- <-].
+      cbn [forallb]. rewrite (IHv _ _ _ E), (IHl _ _ _ E2). reflexivity.
+    + intros last b l r. rewrite pd_S. destruct b as [|c r0]; [discriminate|].
+      destruct (byte_eqb c ch_e); [intros [= <- <-]; split; reflexivity|].
+      destruct (is_digit c); [|discriminate].
+      destruct (parse_str_tok (c :: r0)) as [[k b1]|] eqn:T; [|discriminate].
+      destruct (key_after last k) eqn:K; [|discriminate].
+      destruct (parse_value_fuel f false b1) as [[v b2]|] eqn:E; [|discriminate].
+      destruct (parse_dict_fuel f false (Some k) b2) as [[dd b3]|] eqn:E2; [|discriminate]. intros [= <- <-].
+      destruct (IHd _ _ _ _ E2) as (K2 & V2).
+      destruct (parse_str_tok_spec _ _ _ T) as (_ & _ & _ & Hs).
+      cbn [map fst snd keys_asc forallb]. rewrite K, K2, Hs, (IHv _ _ _ E), V2. split; reflexivity.
+Qed.
+
+Theorem parse_value_canon b v r : parse_value b = Some (v, r) -> canonb v = true.
+Proof. apply (proj1 (parse_canon _)). Qed.
+
+(* ================================================================================================
+   The raw scanner
+   ================================================================================================ *)
+Lemma sv_S f b :
+  scan_value_fuel (S f) b =
+  match b with
+  | [] => None
+  | c :: r =>
+      if byte_eqb c ch_d || byte_eqb c ch_l then
+        match scan_items_fuel f r with Some (body, r') => Some (c :: body, r') | None => None end
+      else if byte_eqb c ch_i then
+        match read_until ch_e r with Some (txt, r') => Some (c :: txt ++ [ch_e], r') | None => None end
+      else if is_digit c then
+        match read_until ch_colon b with
+        | None => None
+        | Some (txt, r1) =>
+            match parse_udec txt with
+            | None => None
+            | Some n =>
+                if Z.leb (Z.of_N n) int64_max then
+                  match take_str n r1 with Some (s, r2) => Some (txt ++ ch_colon :: s, r2) | None => None end
+                else None
+            end
+        end
+      else None
+  end.
+Proof. reflexivity. Qed.
+
+Lemma si_S f b :
+  scan_items_fuel (S f) b =
+  match b with
+  | [] => None
+  | c :: r =>
+      if byte_eqb c ch_e then Some ([ch_e], r)
+      else match scan_value_fuel f b with
+           | None => None
+           | Some (raw, b1) =>
+               match scan_items_fuel f b1 with Some (body, b2) => Some (raw ++ body, b2) | None => None end
+           end
+  end.
+Proof. reflexivity. Qed.
+
+Lemma scan_mono f :
+  (forall b x, scan_value_fuel f b = Some x -> scan_value_fuel (S f) b = Some x) /\
+  (forall b x, scan_items_fuel f b = Some x -> scan_items_fuel (S f) b = Some x).
+Proof.
+  induction f as [|f (IHv & IHi)].
+  - split; intros; discriminate.
+  - split.
+    + intros b x. rewrite (sv_S (S f)), (sv_S f). destruct b as [|c r]; [discriminate|].
+      destruct (byte_eqb c ch_d || byte_eqb c ch_l).
+      { destruct (scan_items_fuel f r) as [[body r']|] eqn:E; [|discriminate]. rewrite (IHi _ _ E). auto. }
+      auto.
+    + intros b x. rewrite (si_S (S f)), (si_S f). destruct b as [|c r]; [discriminate|].
+      destruct (byte_eqb c ch_e); [auto|].
+      destruct (scan_value_fuel f (c :: r)) as [[raw b1]|] eqn:E; [|discriminate]. rewrite (IHv _ _ E).
+      destruct (scan_items_fuel f b1) as [[body b2]|] eqn:E2; [|discriminate]. rewrite (IHi _ _ E2). auto.
+Qed.
+
+Lemma scan_value_mono_le f f' b x : (f <= f')%nat -> scan_value_fuel f b = Some x -> scan_value_fuel f' b = Some x.
+Proof. intros Hle; induction Hle; [auto|]. intros H0. apply scan_mono. auto. Qed.
+Lemma scan_items_mono_le f f' b x : (f <= f')%nat -> scan_items_fuel f b = Some x -> scan_items_fuel f' b = Some x.
+Proof. intros Hle; induction Hle; [auto|]. intros H0. apply scan_mono. auto. Qed.
+
+(* the scanner returns the consumed prefix itself; that prefix alone scans to itself with fuel = its
+   length; and bytes appended after it do not matter *)
+Lemma scan_consumed f :
+  (forall b raw r, scan_value_fuel f b = Some (raw, r) ->
+     b = raw ++ r /\ scan_value_fuel (length raw) raw = Some (raw, []) /\
+     (forall rest, scan_value_fuel (length raw) (raw ++ rest) = Some (raw, rest))) /\
+  (forall b body r, scan_items_fuel f b = Some (body, r) ->
+     b = body ++ r /\ scan_items_fuel (length body) body = Some (body, []) /\
+     (forall rest, scan_items_fuel (length body) (body ++ rest) = Some (body, rest))).
+Proof.
+  induction f as [|f (IHv & IHi)].
+  - split; intros; discriminate.
+  - split.
+    + intros b raw r. rewrite sv_S. destruct b as [|c r0]; [discriminate|].
+      destruct (byte_eqb c ch_d || byte_eqb c ch_l) eqn:Edl.
+      { destruct (scan_items_fuel f r0) as [[body r']|] eqn:E; [|discriminate]. intros [= <- <-].
+        destruct (IHi _ _ _ E) as (-> & P1 & P2).
+        split; [reflexivity|]. cbn [length].
+        split; [|intros rest]; rewrite sv_S; cbn [app]; rewrite Edl.
+        - rewrite P1. reflexivity.
+        - rewrite P2. reflexivity. }
+      destruct (byte_eqb c ch_i) eqn:Ei.
+      { destruct (read_until ch_e r0) as [[txt r']|] eqn:R; [|discriminate]. intros [= <- <-].
+        pose proof (read_until_spec _ _ _ _ R) as (-> & Hn).
+        split; [simpl; rewrite <- app_assoc; reflexivity|]. cbn [length].
+        split; [|intros rest]; rewrite sv_S; cbn [app]; rewrite Edl, Ei.
+        - rewrite (read_until_app ch_e txt [] Hn). reflexivity.
+        - rewrite <- app_assoc. cbn [app]. rewrite (read_until_app ch_e txt rest Hn). reflexivity. }
+      destruct (is_digit c) eqn:Edg; [|discriminate].
+      destruct (read_until ch_colon (c :: r0)) as [[txt r1]|] eqn:R; [|discriminate].
+      destruct (parse_udec txt) as [n|] eqn:U; [|discriminate].
+      destruct (Z.leb (Z.of_N n) int64_max) eqn:I; [|discriminate].
+      destruct (take_str n r1) as [[s r2]|] eqn:T; [|discriminate]. intros [= <- <-].
+      pose proof (read_until_spec _ _ _ _ R) as (Eb & Hn).
+      pose proof (take_str_spec _ _ _ _ T) as (-> & L).
+      split; [rewrite Eb, <- app_assoc; reflexivity|].
+      destruct txt as [|t0 txt']; [discriminate|].
+      cbn [app] in Eb. injection Eb as <- _.
+      assert (Hlen : length ((c :: txt') ++ ch_colon :: s) = S (length (txt' ++ ch_colon :: s))) by reflexivity.
+      rewrite Hlen.
+      split; [|intros rest]; rewrite sv_S; cbn [app]; rewrite Edl, Ei, Edg.
+      * change (c :: txt' ++ ch_colon :: s) with ((c :: txt') ++ ch_colon :: s).
+        rewrite (read_until_app ch_colon (c :: txt') s Hn), U, I.
+        subst n. pose proof (take_str_app s []) as TT. rewrite app_nil_r in TT. rewrite TT. reflexivity.
+      * replace ((c :: (txt' ++ ch_colon :: s) ++ rest)) with ((c :: txt') ++ ch_colon :: (s ++ rest))
+          by (cbn [app]; rewrite <- app_assoc; reflexivity).
+        rewrite (read_until_app ch_colon (c :: txt') (s ++ rest) Hn), U, I.
+        subst n. rewrite take_str_app. reflexivity.
+    + intros b body r. rewrite si_S. destruct b as [|c r0]; [discriminate|].
+      destruct (byte_eqb c ch_e) eqn:Ee.
+      { intros [= <- <-]. apply byte_eqb_eq in Ee. subst c.
+        split; [reflexivity|]. split; [reflexivity | intros rest; reflexivity]. }
+      destruct (scan_value_fuel f (c :: r0)) as [[raw b1]|] eqn:E; [|discriminate].
+      destruct (scan_items_fuel f b1) as [[body' b2]|] eqn:E2; [|discriminate]. intros [= <- <-].
+      destruct (IHv _ _ _ E) as (E1 & P1 & Q1). destruct (IHi _ _ _ E2) as (-> & P2 & Q2).
+      split; [rewrite <- app_assoc; exact E1|].
+      destruct raw as [|x1 raw']; [simpl in P1; discriminate|].
+      destruct body' as [|x2 body'']; [simpl in P2; discriminate|].
+      assert (Hc : x1 = c) by (cbn [app] in E1; congruence). subst x1.
+      assert (Hlen : length ((c :: raw') ++ x2 :: body'') = S (S (length raw' + length body''))).
+      { rewrite app_length. cbn [length]. lia. }
+      rewrite Hlen.
+      split; [|intros rest]; rewrite si_S; cbn [app]; rewrite Ee.
+      * change (c :: raw' ++ x2 :: body'') with ((c :: raw') ++ x2 :: body'').
+        erewrite (scan_value_mono_le _ (S (length raw' + length body''))); [| | exact (Q1 (x2 :: body''))]; [| cbn [length]; lia].
+        cbv beta iota.
+        erewrite (scan_items_mono_le _ (S (length raw' + length body''))); [| | exact P2]; [| cbn [length]; lia].
+        reflexivity.
+      * replace (c :: (raw' ++ x2 :: body'') ++ rest) with ((c :: raw') ++ (x2 :: body'') ++ rest)
+          by (cbn [app]; rewrite <- app_assoc; reflexivity).
+        erewrite (scan_value_mono_le _ (S (length raw' + length body''))); [| | exact (Q1 ((x2 :: body'') ++ rest))]; [| cbn [length]; lia].
+        cbv beta iota.
+        erewrite (scan_items_mono_le _ (S (length raw' + length body''))); [| | exact (Q2 rest)]; [| cbn [length]; lia].
+        reflexivity.
+Qed.
+
+Theorem scan_value_fuel_enough f b : (length b <= f)%nat -> scan_value_fuel f b = scan_value_fuel (length b) b.
+Proof.
+  intros Hf. destruct (scan_value_fuel f b) as [[raw r]|] eqn:E.
+  - destruct (proj1 (scan_consumed f) _ _ _ E) as (Eb & _ & Q).
+    symmetry. rewrite Eb. eapply scan_value_mono_le; [|exact (Q r)]. rewrite app_length. lia.
+  - destruct (scan_value_fuel (length b) b) as [x|] eqn:E2; [|reflexivity].
+    rewrite (scan_value_mono_le _ f _ _ Hf E2) in E. discriminate.
+Qed.
+
+(* one raw value: a byte string that the scanner consumes exactly *)
+Definition one_raw_value (raw : bytes) : Prop := scan_value raw = Some (raw, []).
+
+Theorem scan_value_spec b raw r :
+  scan_value b = Some (raw, r) -> b = raw ++ r /\ raw <> [] /\ one_raw_value raw.
+Proof.
+  unfold scan_value, one_raw_value. intros H.
+  destruct (proj1 (scan_consumed _) _ _ _ H) as (E & P & _).
+  split; [exact E|]. split; [destruct raw; [simpl in P; discriminate | discriminate] | exact P].
+Qed.
+
+Theorem scan_value_raw_app raw rest : one_raw_value raw -> scan_value (raw ++ rest) = Some (raw, rest).
+Proof.
+  unfold one_raw_value, scan_value. intros H.
+  destruct (proj1 (scan_consumed _) _ _ _ H) as (_ & _ & Q).
+  eapply scan_value_mono_le; [|exact (Q rest)]. rewrite app_length. lia.
+Qed.
+
